@@ -22,6 +22,9 @@ package mr
 //        rb/ra the reducer is about to Write / its Write returned, rn<k> the reducer has received k values,
 //        rc the reducer saw the pipe closed, re/rp the reducer is about to return/panic, xa/xb the context is about
 //        to be / has been cancelled, ge/gp the generator is about to return/panic, ret the call returned
+//   t<ev> probe: give event <ev> the chance to happen (yield the processor up to c10ProbeYields times, stop as soon as it
+//        has happened), then go on — used for events that MUST NOT happen while this function runs (e.g. a
+//        (workers+1)-th mapper starting while `workers` mappers are running)
 // gp=k: the generator panics before sending item k (k=n: after the last item); gx=k: cancels the context there;
 // gw=k:ev: the generator stalls before sending item k (k=n: before returning) until event ev.
 // Observed `hist` = the totally ordered history of these events (tokens as above; cancel begins carry the
@@ -48,6 +51,7 @@ type c10Err struct{ k int }
 func (e c10Err) Error() string { return "E" + strconv.Itoa(e.k) }
 
 const (
+	c10ProbeYields = 400
 	c10HangMax   = 4 * time.Second
 	c10SettleMax = 1500 * time.Millisecond
 )
@@ -225,6 +229,17 @@ func c10Exec(op []string) string {
 			runtime.Gosched()
 		}
 	}
+	probe := func(key string) {
+		c := ev.ch(key)
+		for i := 0; i < c10ProbeYields; i++ {
+			select {
+			case <-c:
+				return
+			default:
+				runtime.Gosched()
+			}
+		}
+	}
 	var mu sync.Mutex
 	var mapped, reduced []int
 	logf := func(f func()) { mu.Lock(); f(); mu.Unlock() }
@@ -242,6 +257,8 @@ func c10Exec(op []string) string {
 			yield()
 		case a[0] == 'u':
 			wait(a[1:])
+		case a[0] == 't':
+			probe(a[1:])
 		case a[0] == 'w':
 			write(verifh.Atoi(a[1:]))
 		case a[0] == 'c':
@@ -475,7 +492,20 @@ func c10Plain(r *verifh.Rng, n, w int) c10Cfg {
 		}
 		c.m = append(c.m, s)
 	}
-	switch r.Intn(8) {
+	switch r.Intn(10) {
+	case 8:
+		c.r = []string{"o", "w" + strconv.Itoa(r.Range(1, 99))} // "first result wins": does not read the rest
+	case 9: // reducers that do not look at the pipe at all
+		switch r.Intn(4) {
+		case 0:
+			c.r = []string{"w" + strconv.Itoa(r.Range(1, 99))}
+		case 1:
+			c.r = nil
+		case 2:
+			c.r = []string{"o"}
+		default:
+			c.r = []string{"y", "w5"}
+		}
 	case 0:
 		c.r = []string{"a"} // no output
 	case 1:
@@ -833,9 +863,13 @@ func c10Races(r *verifh.Rng, w int) []c10Cfg {
 			for j := 0; j < w; j++ {
 				c.m[j] = []string{"w" + val()}
 			}
-			c.m[t] = []string{"c" + it(t+1)}
+			first := "c" + it(t+1)
+			if r.Chance(1, 4) {
+				first = "c0"
+			}
+			c.m[t] = []string{first}
 			if r.Bool() {
-				c.m[t] = []string{"w" + val(), "c" + it(t+1), "w" + val()}
+				c.m[t] = []string{"w" + val(), first, "w" + val()}
 			}
 			c.r = []string{"ucem" + it(t)}
 			if r.Bool() {
@@ -901,6 +935,10 @@ func c10Races(r *verifh.Rng, w int) []c10Cfg {
 			}
 			if j < first {
 				c.m[j] = c10Insert(c.m[j], r.Intn(len(c.m[j])+1), "us"+it(first-1))
+				if n > w {
+					// all `w` slots are taken: mapper w must not start before one of them has ended
+					c.m[j] = append(c.m[j], "ts"+it(w))
+				}
 			}
 		}
 		if r.Bool() {
